@@ -58,6 +58,21 @@ def gen(rng, fam):
             threads[0] += [["unpark", t]]
             if rng.random() < 0.3: threads[0] += [["unpark", t]]
         rng.shuffle(threads[0])
+    elif fam == "cvz":
+        # waiters with predicate loop; notifiers increment under the lock then notify
+        for t in range(1, nth):
+            if rng.random() < 0.75:
+                threads[t] += [["lock", 0], ["cvwaitz"], ["incr", 0], ["unlock", 0]]
+            else:
+                threads[t] += [["lock", 0], ["incr", 0], ["unlock", 0], [rng.choice(["notify_one", "notify_all"])]]
+        r = rng.random()
+        if r < 0.7:
+            threads[0] += [["lock", 0], ["incr", 0], ["unlock", 0], [rng.choice(["notify_one", "notify_all"])]]
+        elif r < 0.85:
+            threads[0] += [["lock", 0], ["incr", 0], ["unlock", 0]]           # forgot to notify
+        else:
+            threads[0] += [[rng.choice(["notify_one", "notify_all"])], ["lock", 0], ["incr", 0], ["unlock", 0]]   # notify before setting
+        if rng.random() < 0.3: threads[0] += [[rng.choice(["notify_one", "notify_all"])]]
     elif fam == "cv":
         # waiters: lock 0; cvwait; incr; unlock   notifier: lock 0; incr; unlock; notify
         for t in range(1, nth):
